@@ -29,6 +29,17 @@ import (
 
 const c15Deadline = 30 * time.Second
 
+// c15Will is the will message of a CONNECT; the recording publish pipeline decides by the first payload byte.
+type c15Will struct {
+	Topic   string `json:"topic"`
+	Payload string `json:"payload"`
+	Qos     int    `json:"qos"`
+	Retain  bool   `json:"retain,omitempty"`
+}
+
+// c15Ids: legal MQTT client ids that stress everything keyed by client id (store keys, watch events, trie entries).
+var c15Ids = []string{"A", "plant7/line3/sensor42", "dev 1 %2F+#", "\u00fcn\u00ef/\u00e7o\u2202e %zz", strings.Repeat("long-id/", 40) + "x", "a b", "#", "+/+"}
+
 // c15Timeouts counts waits that hit their deadline in this process (a hung / desynchronised broker).
 // The first one gets a generous deadline; once something is evidently stuck later waits are cut to
 // 2 s, the current case is abandoned, and after a few such cases (or when the wall-clock budget of
@@ -192,6 +203,11 @@ type c15Env struct {
 	pipe  *c15Pipe
 	gate  *c15Gate
 	store storage
+	// how the lookup of the other cluster members behaves (Broker.memberURL): "" none, "err" fails,
+	// "dead" one member nobody listens at
+	memberMode string
+	// will of the next CONNECT (nil: none)
+	will *c15Will
 	open  int // sockets whose broker-side connection goroutine must still exist
 	clis  []*c15Cli
 }
@@ -207,7 +223,15 @@ func c15NewEnv(withPipe bool, publishLimit *RateLimit) *c15Env {
 		spec.Rules = append(spec.Rules, &Rule{When: &When{PacketType: Publish}, Pipeline: "c15-publish"})
 	}
 	env.store = newStorage(nil)
-	env.b = newBroker(spec, env.store, mapper, func(string, string) ([]string, error) { return nil, nil })
+	env.b = newBroker(spec, env.store, mapper, func(string, string) ([]string, error) {
+		switch env.memberMode {
+		case "err":
+			return nil, fmt.Errorf("verif: member lookup fails")
+		case "dead":
+			return []string{"http://127.0.0.1:1/mqttproxy/verif/topics/publish"}, nil
+		}
+		return nil, nil
+	})
 	if env.b == nil {
 		panic("verif: broker did not start")
 	}
@@ -469,6 +493,14 @@ func (e *c15Env) dial(cid string, clean bool, autoAck bool) (*c15Cli, int) {
 	cp.CleanSession = clean
 	cp.ClientIdentifier = cid
 	cp.Keepalive = 0
+	if w := e.will; w != nil {
+		cp.WillFlag = true
+		cp.WillTopic = w.Topic
+		cp.WillMessage = []byte(w.Payload)
+		cp.WillQos = byte(w.Qos)
+		cp.WillRetain = w.Retain
+		e.will = nil
+	}
 	if err := cp.Write(conn); err != nil {
 		conn.Close()
 		return nil, -1
@@ -524,7 +556,11 @@ func (c *c15Cli) unsubscribe(filters []string) string {
 // ---------------------------------------------------------------- HTTP endpoints (in-package, httptest)
 
 func (e *c15Env) httpPublish(topic string, qos int, payload string) int {
-	body, _ := json.Marshal(HTTPJsonData{Topic: topic, QoS: qos, Payload: payload})
+	return e.httpPublishDist(topic, qos, payload, false)
+}
+
+func (e *c15Env) httpPublishDist(topic string, qos int, payload string, distributed bool) int {
+	body, _ := json.Marshal(HTTPJsonData{Topic: topic, QoS: qos, Payload: payload, Distributed: distributed})
 	w := httptest.NewRecorder()
 	r := httptest.NewRequest(http.MethodPost, "/mqttproxy/verif/topics/publish", bytes.NewReader(body))
 	e.b.httpTopicsPublishHandler(w, r)
